@@ -182,8 +182,11 @@ def _set_error_response(
     schema: pa.Schema = _EMPTY_SCHEMA,
     server_id: str | None = None,
     preamble: Callable[[ipc.RecordBatchStreamWriter, pa.Schema], None] | None = None,
+    body: BytesIO | None = None,
 ) -> None:
-    """Set a Falcon response to an Arrow IPC error stream."""
+    """Set a Falcon response to an Arrow IPC error stream (*body* when a dispatch shell already rendered it)."""
     resp.content_type = _ARROW_CONTENT_TYPE
-    resp.stream = _error_response_stream(exc, schema, server_id=server_id, preamble=preamble)
+    if body is None:
+        body = _error_response_stream(exc, schema, server_id=server_id, preamble=preamble)
+    resp.stream = body
     _set_http_status(resp, status_code)
